@@ -63,15 +63,24 @@ def generate(src, strip_comments, fn_body, header):
             use_slot = True
         elif all(rank) and not any(slot):
             use_slot = False
-    if None in consts or len(set(consts)) != 1 or None in lossy or len(set(lossy)) != 1 or use_slot is None:
-        lines.append('def scanCfg : Ferrous.Scan.Cfg := extraction_failed "scan loop constants / MATCH call / cursor scheme not recognised or not uniform: %s %s rank=%s slot=%s slot_fn=%s"' % (consts, lossy, rank, slot, slot_ok))
+    # handle_scan: is the TYPE value lower-cased before the engine compares it with the lower-case type names?
+    hs = fn_body(strip_comments(src("storage/commands/scan.rs")), "handle_scan") or ""
+    tm = re.search(r"type_filter\s*=\s*Some\(\s*String::from_utf8_lossy\(t\)\s*\.(to_ascii_lowercase|to_lowercase|to_string)\(\)\s*\)", hs)
+    engine_exact = bool(re.search(r"if\s+value_type\s*!=\s*type_name\s*\{\s*continue;", fn_body(text, "scan") or ""))
+    type_fold = None
+    if tm and engine_exact:
+        type_fold = tm.group(1) in ("to_ascii_lowercase", "to_lowercase")
+    if None in consts or len(set(consts)) != 1 or None in lossy or len(set(lossy)) != 1 or use_slot is None or type_fold is None:
+        lines.append('def scanCfg : Ferrous.Scan.Cfg := extraction_failed "scan loop constants / MATCH call / cursor scheme not recognised or not uniform: %s %s rank=%s slot=%s slot_fn=%s type_fold=%s"' % (consts, lossy, rank, slot, slot_ok, type_fold))
     else:
         d, c, f = consts[0]
         lines.append("/-- `count == 0 -> %d`, `min(scan_count, %d)`, `examined < max_scan_count * %d` in scan/hscan/sscan/zscan;" % (d, c, f))
         lines.append("    MATCH %s;" % ("goes through `String::from_utf8_lossy` and `pattern_matches(&str, &str)`" if lossy[0] else "compares bytes (`pattern_matches(&[u8], &[u8])`)"))
+        lines.append("    TYPE value %s by handle_scan;" % ("lower-cased (`to_ascii_lowercase`)" if type_fold else "passed as given"))
         lines.append("    cursor: %s. -/" % ("the slot (`scan_slot`, FNV-1a 64 >> 11) of the next element in the order of (slot, name)" if use_slot
                                         else "a rank in the list sorted by name"))
-        lines.append("def scanCfg : Ferrous.Scan.Cfg := ⟨%d, %d, %d, %s, %s⟩" % (d, c, f, "true" if lossy[0] else "false", "true" if use_slot else "false"))
+        lines.append("def scanCfg : Ferrous.Scan.Cfg := ⟨%d, %d, %d, %s, %s, %s⟩" % (d, c, f, "true" if lossy[0] else "false", "true" if use_slot else "false",
+                                                                                   "true" if type_fold else "false"))
     # the `[` arm of pattern_matches: Redis's stringmatchlen walk (member by member) or the old "find the first ]" scan
     pm_body = fn_body(text, "pattern_matches") or ""
     redis_walk = bool(re.search(r"pattern_chars\[i\]\s*==\s*b'\\\\'\s*&&\s*i\s*\+\s*1\s*<\s*pattern_chars\.len\(\)", pm_body)
